@@ -35,6 +35,8 @@ MCIsoAds == [i \in MCIsos |-> IF i = "I3" THEN "A2" ELSE "A1"]
 MCIsoTy == [i \in MCIsos |-> IF i = "I3" THEN "tm" ELSE "tp"]
 MCIsoMatVer == [i \in MCIsos |-> IF i = "I2" THEN "m0" ELSE "m1"]
 MCIsoAdsVer == [i \in MCIsos |-> "a0"]
+\* Impl as first seen; the driver writes a derived cfg with "Traits = {...}" for the traits it probed
+MCTraits == AllTraits
 MCIsoClass == [i \in MCIsos |-> IF i = "I2" THEN "coerce" ELSE "plain"]
 
 VARIABLES db, model, reg, hist
